@@ -887,6 +887,12 @@ pub fn gen(tier: Tier, rng: &mut Rng) -> Vec<Case> {
         let opts = RawOpts { jumps: true, bad_jumps: !canonical, noncanonical: !canonical, unknown: k % 4 == 0, regs: true };
         let (instrs, tags) = gen_raw(&mut r, &spec, &opts);
         let arguments = !r.chance(1, 8);
+        // The model keeps strings as bytes (Shift-JIS is a parameter, C15).  A damaged blob whose string bytes are
+        // not valid Shift-JIS makes the real decoder stop with "could not read string using encoding" - a text-codec
+        // matter outside this model: such scripts are not used as model-compared cases.
+        let undecodable = std::panic::catch_unwind(std::panic::AssertUnwindSafe(|| eval_raise(&spec, true, &instrs)))
+            .map(|res| res.head() == Some("err") && res.args().first().map_or(false, |a| a.as_atom().contains("could not read string using encoding"))).unwrap_or(false);
+        if undecodable { continue; }
         let body: Vec<Sexp> = instrs.iter().map(instr_sexp).collect();
         let mut c = Case::corr(case_of("raise", &spec, Some(arguments), body.clone())).tag(target_tag(&spec.target)).tag(if canonical { "raise-canonical" } else { "raise-noncanonical" }).trivial(instrs.is_empty());
         if !arguments { c = c.tag("no-arguments"); }
